@@ -12,11 +12,14 @@
     bool_attr_html bool_attr_xhtml bool_table_covers_html4
     doctype_unique doctype_suppressed doctype_option_wins decl_policy_html decl_policy_xhtml decl_unique
     html_roundtrip_partial xhtml_roundtrip_partial html_render_roundtrip_partial xhtml_render_roundtrip_partial
+    html_roundtrip_tree_partial xhtml_roundtrip_tree_partial
     rawtext_endtag_not_recovered comment_dashes_not_recovered attr_ws_not_recovered_xhtml
     markup_text_not_recovered raw_table_matches_reader normEol_id
 -/
 import Genshi.Lemmas.ReaderXhtml
+import Genshi.Lemmas.ReaderTree
 import Genshi.Lemmas.Output
+import Genshi.Lemmas.OutputFlatten
 import Genshi.Model.OutputPipeline
 namespace Genshi.Props.C08
 open Genshi Genshi.Escape Genshi.Output Genshi.Reader
@@ -294,6 +297,21 @@ theorem decl_unique (m : Method) (o : Opts) (evs : List FEv) :
         simp [isXmlDecl, hw, decls_zero m o rest _ hc]
     | _ => simp [isXmlDecl]; exact ih _
 
+/-- `render(cache=True) = render(cache=False)` (as in C09; restated here so that the two property
+    files do not import each other) -/
+theorem render_cache_irrelevant' (m : Method) (strip : Bool) (dt : Option DocTypeT) (dropd : Bool) (s : Stream) :
+    render m { strip := strip, cache := true, doctype := dt, dropXmlDecl := dropd } s =
+    render m { strip := strip, cache := false, doctype := dt, dropXmlDecl := dropd } s := by
+  have hfl : ∀ evs, flatten true (flatInit m) evs = flatten false (flatInit m) evs :=
+    fun evs => flatten_cache_eq evs (flatInit m) (flatCacheOk_nil _ rfl)
+  have hlp : ∀ o evs, loop m o true {} evs = loop m o false {} evs := by
+    intro o evs
+    rw [loop_cache_eq_spec m o evs {} (cacheOk_nil m o), loop_nocache_eq_spec]
+  simp only [render, chunks, filtered, hfl, Option.map_map]
+  congr 1
+  funext fs
+  simp [hlp]
+
 /-! ### the round trip over whole streams -/
 
 /-- html.  For every filtered stream inside the stated hypotheses (`HtmlOkAll`: names are names;
@@ -352,6 +370,61 @@ example : (render .html { strip := false } exStream).bind (tokens false) =
           .start ['b', 'r'] [] false,
           .start ['s', 'c', 'r', 'i', 'p', 't'] [] false, .text ['a', '<', 'b'], .end_ ['s', 'c', 'r', 'i', 'p', 't'],
           .text ['a', '<', 'b'], .end_ ['p']] := by decide
+
+/-! ### over forests -/
+
+/-- html, over trees.  For every forest `ns` (a) whose leaves are not START/END events, (b) without
+    element namespaces (attributes none or XML namespace) and (c) inside the hypotheses
+    `htmlForestOk` (names are names, script/style hold only plain text without `</`, comments
+    without `--`, leaves are plain text or comments): the html serialisation of its flattening,
+    read back, is `assemble (forestPieces ns)` — start tag with the attributes of `htmlAttrToks`,
+    end tag unless the element is void and childless, adjacent text merged and recovered verbatim.
+    Full statement (not proved): also XHTML-namespaced forests, `strip_whitespace=True`, a doctype
+    option, PI / DOCTYPE / CDATA leaves. -/
+theorem html_roundtrip_tree_partial (cache dropd : Bool) (ns : List Node)
+    (hok : okList ns = true) (hns : forestNsFree ns = true) (hh : htmlForestOk ns = true) :
+    (render .html { strip := false, cache := cache, doctype := none, dropXmlDecl := dropd } (flattenList ns)).bind
+        (tokens false) = some (assemble (forestPieces ns)) := by
+  have hc : render .html { strip := false, cache := cache, doctype := none, dropXmlDecl := dropd } (flattenList ns) =
+      render .html { strip := false, cache := false, doctype := none, dropXmlDecl := dropd } (flattenList ns) := by
+    cases cache
+    · rfl
+    · exact Genshi.Props.C08.render_cache_irrelevant' .html false none dropd (flattenList ns)
+  rw [hc]
+  have hf := filtered_forest .html false dropd ns hok hns
+  have hk := htmlOk_forest ns hh
+  have hend : ((forestF ns).foldl htmlEv {}).raw = false := by rw [foldl_htmlEv_raw]; exact hk.2
+  rw [html_render_roundtrip_partial _ _ _ hf hk.1 hend, htmlExpected_eq_assemble, pieces_forest]
+
+/-- xhtml, over trees (tokenizer level, before namespace resolution): same shape; a childless void
+    element is read back self-closed, every other element with start and end tag; boolean
+    attributes as `name="name"`; hypotheses `xhtmlForestOk` (additionally: attribute values without
+    LF/TAB/CR). -/
+theorem xhtml_roundtrip_tree_partial (cache : Bool) (ns : List Node)
+    (hok : okList ns = true) (hns : forestNsFree ns = true) (hh : xhtmlForestOk ns = true) :
+    (render .xhtml { strip := false, cache := cache, doctype := none, dropXmlDecl := true } (flattenList ns)).bind
+        (tokens true) = some (assemble (forestPiecesX ns)) := by
+  have hc : render .xhtml { strip := false, cache := cache, doctype := none, dropXmlDecl := true } (flattenList ns) =
+      render .xhtml { strip := false, cache := false, doctype := none, dropXmlDecl := true } (flattenList ns) := by
+    cases cache
+    · rfl
+    · exact Genshi.Props.C08.render_cache_irrelevant' .xhtml false none true (flattenList ns)
+  rw [hc]
+  have hf := filtered_forest .xhtml false true ns hok hns
+  rw [xhtml_render_roundtrip_partial _ _ _ hf (xhtmlOk_forest ⟨true⟩ ns hh), xhtmlExpected_eq_assemble, piecesX_forest]
+
+def exForest : List Node :=
+  [.elem ⟨[], ['p']⟩ [(⟨[], ['c', 'h', 'e', 'c', 'k', 'e', 'd']⟩, ['y'])]
+    [.elem ⟨[], ['b', 'r']⟩ [] [], .leaf (.text ['a', '<'] false), .leaf (.text ['&'] false),
+     .elem ⟨[], ['s', 'c', 'r', 'i', 'p', 't']⟩ [] [.leaf (.text ['1', '<', '2'] false)], .elem ⟨[], ['b']⟩ [] []]]
+
+example : okList exForest = true ∧ forestNsFree exForest = true ∧ htmlForestOk exForest = true ∧
+    xhtmlForestOk exForest = true := by decide
+
+example : assemble (forestPieces exForest) =
+    [.start ['p'] [(['c', 'h', 'e', 'c', 'k', 'e', 'd'], none)] false, .start ['b', 'r'] [] false,
+     .text ['a', '<', '&'], .start ['s', 'c', 'r', 'i', 'p', 't'] [] false, .text ['1', '<', '2'],
+     .end_ ['s', 'c', 'r', 'i', 'p', 't'], .start ['b'] [] false, .end_ ['b'], .end_ ['p']] := by decide
 
 /-! ### each excluded class is really excluded: the full statement fails there -/
 
